@@ -318,7 +318,7 @@ structure StepSpec (m : RInner) (i : RIn) (m' : RInner) (outs : List ROut) : Pro
   shape : ∃ cs tail, Shape outs cs tail
   rel_nodup : (relFams outs).Nodup
   rel_mem : ∀ f, f ∈ relFams outs ↔ (holdsP f (pendingOf m) ∧ ¬ holdsP f (pendingOf m'))
-  ended : (endRemaining outs).isSome = true ↔ m' = .completed
+  ended : m ≠ .completed → ((endRemaining outs).isSome = true ↔ m' = .completed)
 
 theorem holdsP_nil (f : Fam) : ¬ holdsP f [] := by
   rintro ⟨p, hp⟩; simp [Restarting.pairs] at hp
@@ -374,21 +374,21 @@ theorem mkSpec {m : RInner} {i : RIn} {pend' : Pending} {cs : List Fam} {m' : RI
     · simp [relFams, hsh.complete, hsh.remaining, endRemaining, hcs]
     · intro f; simp only [relFams, hsh.complete, hsh.remaining, endRemaining, Option.getD_some, List.append_nil]
       exact hmem f
-    · simp [hsh.remaining, endRemaining]
+    · intro _; simp [hsh.remaining, endRemaining]
   · rcases hout with rfl | ⟨d, rfl⟩
     · have hsh : Shape (cs.map ROut.famComplete) cs [] := ⟨by simp, Or.inl rfl⟩
       refine ⟨hpe ▸ hw, hpe ▸ hp, fun _ => hpe ▸ hne, ⟨cs, _, hsh⟩, ?_, ?_, ?_⟩
       · simp [relFams, hsh.complete, hsh.remaining, endRemaining, hcs]
       · intro f; simp only [relFams, hsh.complete, hsh.remaining, endRemaining, Option.getD_none, List.append_nil]
         rw [hpe]; exact hmem f
-      · simp [hsh.remaining, endRemaining, hnc]
+      · intro _; simp [hsh.remaining, endRemaining, hnc]
     · have hsh : Shape (cs.map ROut.famComplete ++ [.startTimer d]) cs [.startTimer d] :=
         ⟨rfl, Or.inr (Or.inl ⟨d, rfl⟩)⟩
       refine ⟨hpe ▸ hw, hpe ▸ hp, fun _ => hpe ▸ hne, ⟨cs, _, hsh⟩, ?_, ?_, ?_⟩
       · simp [relFams, hsh.complete, hsh.remaining, endRemaining, hcs]
       · intro f; simp only [relFams, hsh.complete, hsh.remaining, endRemaining, Option.getD_none, List.append_nil]
         rw [hpe]; exact hmem f
-      · simp [hsh.remaining, endRemaining, hnc]
+      · intro _; simp [hsh.remaining, endRemaining, hnc]
 
 theorem isEmpty_iff_nil {α} {l : List α} : l.isEmpty = true ↔ l = [] := List.isEmpty_iff
 
@@ -591,5 +591,441 @@ theorem eor_spec {pend : Pending} (hw : WFp pend) (p : Peer) (f : Fam) :
         refine ⟨[], ?_, List.nodup_nil, by simpa using this⟩
         have hfs : f ∉ set := by simpa using hwa
         simp [hfs]
+
+theorem mem_nextW_wd {w : List (Peer × Fam)} {p : Peer} {x : Peer × Fam} :
+    x ∈ nextW w (.wd p) ↔ (x ∈ w ∧ x.1 ≠ p) := by
+  simp [nextW]
+
+theorem mem_heldFams {pend : Pending} {f : Fam} : f ∈ heldFams pend ↔ holdsP f pend := by
+  simp only [heldFams, mem_dedup, List.mem_flatMap, holdsP]
+  constructor
+  · rintro ⟨e, he, hf⟩; exact ⟨e.1, mem_pairs.mpr ⟨e.2, he, hf⟩⟩
+  · rintro ⟨p, hp⟩
+    obtain ⟨s, hs, hf⟩ := mem_pairs.mp hp
+    exact ⟨(p, s), hs, hf⟩
+
+/-- Preconditions under which the machine and the reference agree on an input: in `AwaitingStart`
+    the timer has not been started and End-of-RIB can only come from a peer that is not awaited. -/
+def InputOk (m : RInner) (i : RIn) : Prop :=
+  ∀ pend dur, m = .awaiting pend dur →
+    i ≠ .timer ∧ ∀ p f, i = .eor p f → lookup p pend = none
+
+theorem process_spec (m : RInner) (i : RIn) (hw : WFp (pendingOf m))
+    (hne : m ≠ .completed → pendingOf m ≠ []) (hi : InputOk m i) :
+    StepSpec m i (process m i).1 (process m i).2 := by
+  cases m with
+  | completed =>
+      have : process .completed i = (.completed, []) := by cases i <;> rfl
+      rw [this]
+      refine ⟨wfp_nil, fun x => ?_, fun h => absurd rfl h, ⟨[], [], by simp, Or.inl rfl⟩, by simp [relFams, completeFamilies, endRemaining],
+        fun f => ?_, fun h => absurd rfl h⟩
+      · cases i <;> simp [pendingOf, pairs, nextW]
+      · simp [relFams, completeFamilies, endRemaining, pendingOf, holdsP_nil]
+  | awaiting pend dur =>
+      have hpe : pend ≠ [] := hne (by simp)
+      simp only [pendingOf] at hw
+      cases i with
+      | timer => exact absurd rfl (hi pend dur rfl).1
+      | eor p f =>
+          have hl := (hi pend dur rfl).2 p f rfl
+          have : process (.awaiting pend dur) (.eor p f) = (.awaiting pend dur, []) := rfl
+          rw [this]
+          refine mkSpec (cs := []) (pend' := pend) hw (fun x => ?_) List.nodup_nil (fun g => by simp [pendingOf])
+            (Or.inr ⟨hpe, rfl, by simp, Or.inl rfl⟩)
+          simp only [pendingOf, mem_nextW_eor]
+          constructor
+          · intro h; exact ⟨h, fun he => not_mem_pairs_of_lookup_none hl f (he ▸ h)⟩
+          · exact fun h => h.1
+      | wd p =>
+          obtain ⟨hw', hp', cs, hcs, hnd, hmem⟩ := removePeer_spec hw p
+          have : process (.awaiting pend dur) (.wd p) =
+              finishAwaiting (removePeer pend p).1 dur (removePeer pend p).2 := rfl
+          rw [this, hcs]
+          unfold finishAwaiting
+          by_cases he : (removePeer pend p).1.isEmpty = true
+          · rw [if_pos he]
+            exact mkSpec hw' (fun x => by rw [hp', pendingOf, mem_nextW_wd]) hnd hmem
+              (Or.inl ⟨isEmpty_iff_nil.mp he, rfl, rfl⟩)
+          · rw [if_neg he]
+            exact mkSpec hw' (fun x => by rw [hp', pendingOf, mem_nextW_wd]) hnd hmem
+              (Or.inr ⟨fun h => he (isEmpty_iff_nil.mpr h), rfl, by simp, Or.inl rfl⟩)
+      | est p fams0 =>
+          by_cases he : (stillAwaited pend p fams0).isEmpty = true
+          · obtain ⟨hw', hp', cs, hcs, hnd, hmem⟩ := removePeer_spec hw p
+            have : process (.awaiting pend dur) (.est p fams0) =
+                finishAwaiting (removePeer pend p).1 dur (removePeer pend p).2 := by
+              simp only [process, he, ↓reduceIte]
+            rw [this, hcs]
+            have hp'' : ∀ x, x ∈ pairs (removePeer pend p).1 ↔
+                x ∈ nextW (pairs (pendingOf (.awaiting pend dur))) (.est p fams0) := by
+              intro x; rw [hp', pendingOf]; exact est_empty hw p fams0 he x
+            unfold finishAwaiting
+            by_cases he2 : (removePeer pend p).1.isEmpty = true
+            · rw [if_pos he2]
+              exact mkSpec hw' hp'' hnd hmem (Or.inl ⟨isEmpty_iff_nil.mp he2, rfl, rfl⟩)
+            · rw [if_neg he2]
+              exact mkSpec hw' hp'' hnd hmem
+                (Or.inr ⟨fun h => he2 (isEmpty_iff_nil.mpr h), rfl, by simp, Or.inl rfl⟩)
+          · have he' : (stillAwaited pend p fams0).isEmpty = false := by simpa using he
+            cases hl : lookup p pend with
+            | none =>
+                have : process (.awaiting pend dur) (.est p fams0) = (.awaiting pend dur, []) := by
+                  simp only [process, he', Bool.false_eq_true, ↓reduceIte, hl]
+                rw [this]
+                exact mkSpec (cs := []) (pend' := pend) hw (fun x => by rw [pendingOf]; exact est_unknown p fams0 hl x)
+                  List.nodup_nil (fun g => by simp [pendingOf]) (Or.inr ⟨hpe, rfl, by simp, Or.inl rfl⟩)
+            | some old =>
+                obtain ⟨hw', hne', hp', hcf, hnd, hmem⟩ := est_known hw p fams0 old hl he'
+                have : process (.awaiting pend dur) (.est p fams0) =
+                    (.deferring (replace p (toSet (stillAwaited pend p fams0)) pend),
+                     completeFor (replace p (toSet (stillAwaited pend p fams0)) pend)
+                       (old.filter fun f => !(toSet (stillAwaited pend p fams0)).contains f) ++ [.startTimer dur]) := by
+                  simp only [process, he', Bool.false_eq_true, ↓reduceIte, hl]
+                rw [this, hcf]
+                exact mkSpec hw' (fun x => by rw [pendingOf]; exact hp' x) hnd hmem
+                  (Or.inr ⟨hne', rfl, by simp, Or.inr ⟨dur, rfl⟩⟩)
+  | deferring pend =>
+      have hpe : pend ≠ [] := hne (by simp)
+      simp only [pendingOf] at hw
+      cases i with
+      | timer =>
+          have : process (.deferring pend) .timer = (.completed, [.endDeferral (heldFams pend)]) := rfl
+          rw [this]
+          have hsh : Shape [ROut.endDeferral (heldFams pend)] [] [.endDeferral (heldFams pend)] :=
+            ⟨by simp, Or.inr (Or.inr ⟨_, rfl⟩)⟩
+          refine ⟨wfp_nil, fun x => by simp [pendingOf, pairs, nextW], fun h => absurd rfl h, ⟨_, _, hsh⟩, ?_, fun f => ?_, ?_⟩
+          · simp [relFams, completeFamilies, endRemaining, heldFams, nodup_dedup]
+          · simp [relFams, completeFamilies, endRemaining, pendingOf, mem_heldFams, holdsP_nil]
+          · intro _; simp [endRemaining]
+      | eor p f =>
+          obtain ⟨hw', hp', cs, hcs, hnd, hmem⟩ := eor_spec hw p f
+          have : process (.deferring pend) (.eor p f) =
+              (if (eorStep pend p f).1.isEmpty then (.completed, (eorStep pend p f).2 ++ [.endDeferral []])
+               else (.deferring (eorStep pend p f).1, (eorStep pend p f).2)) := rfl
+          rw [this, hcs]
+          by_cases he : (eorStep pend p f).1.isEmpty = true
+          · rw [if_pos he]
+            exact mkSpec hw' (fun x => by rw [hp', pendingOf]) hnd hmem (Or.inl ⟨isEmpty_iff_nil.mp he, rfl, rfl⟩)
+          · rw [if_neg he]
+            exact mkSpec hw' (fun x => by rw [hp', pendingOf]) hnd hmem
+              (Or.inr ⟨fun h => he (isEmpty_iff_nil.mpr h), rfl, by simp, Or.inl rfl⟩)
+      | wd p =>
+          obtain ⟨hw', hp', cs, hcs, hnd, hmem⟩ := removePeer_spec hw p
+          have : process (.deferring pend) (.wd p) =
+              finishDeferring (removePeer pend p).1 (removePeer pend p).2 := rfl
+          rw [this, hcs]
+          unfold finishDeferring
+          by_cases he : (removePeer pend p).1.isEmpty = true
+          · rw [if_pos he]
+            exact mkSpec hw' (fun x => by rw [hp', pendingOf, mem_nextW_wd]) hnd hmem
+              (Or.inl ⟨isEmpty_iff_nil.mp he, rfl, rfl⟩)
+          · rw [if_neg he]
+            exact mkSpec hw' (fun x => by rw [hp', pendingOf, mem_nextW_wd]) hnd hmem
+              (Or.inr ⟨fun h => he (isEmpty_iff_nil.mpr h), rfl, by simp, Or.inl rfl⟩)
+      | est p fams0 =>
+          by_cases he : (stillAwaited pend p fams0).isEmpty = true
+          · obtain ⟨hw', hp', cs, hcs, hnd, hmem⟩ := removePeer_spec hw p
+            have : process (.deferring pend) (.est p fams0) =
+                finishDeferring (removePeer pend p).1 (removePeer pend p).2 := by
+              simp only [process, he, ↓reduceIte]
+            rw [this, hcs]
+            have hp'' : ∀ x, x ∈ pairs (removePeer pend p).1 ↔
+                x ∈ nextW (pairs (pendingOf (.deferring pend))) (.est p fams0) := by
+              intro x; rw [hp', pendingOf]; exact est_empty hw p fams0 he x
+            unfold finishDeferring
+            by_cases he2 : (removePeer pend p).1.isEmpty = true
+            · rw [if_pos he2]
+              exact mkSpec hw' hp'' hnd hmem (Or.inl ⟨isEmpty_iff_nil.mp he2, rfl, rfl⟩)
+            · rw [if_neg he2]
+              exact mkSpec hw' hp'' hnd hmem
+                (Or.inr ⟨fun h => he2 (isEmpty_iff_nil.mpr h), rfl, by simp, Or.inl rfl⟩)
+          · have he' : (stillAwaited pend p fams0).isEmpty = false := by simpa using he
+            cases hl : lookup p pend with
+            | none =>
+                have : process (.deferring pend) (.est p fams0) = (.deferring pend, []) := by
+                  simp only [process, he', Bool.false_eq_true, ↓reduceIte, hl]
+                rw [this]
+                exact mkSpec (cs := []) (pend' := pend) hw (fun x => by rw [pendingOf]; exact est_unknown p fams0 hl x)
+                  List.nodup_nil (fun g => by simp [pendingOf]) (Or.inr ⟨hpe, rfl, by simp, Or.inl rfl⟩)
+            | some old =>
+                obtain ⟨hw', hne', hp', hcf, hnd, hmem⟩ := est_known hw p fams0 old hl he'
+                have : process (.deferring pend) (.est p fams0) =
+                    (.deferring (replace p (toSet (stillAwaited pend p fams0)) pend),
+                     completeFor (replace p (toSet (stillAwaited pend p fams0)) pend)
+                       (old.filter fun f => !(toSet (stillAwaited pend p fams0)).contains f)) := by
+                  simp only [process, he', Bool.false_eq_true, ↓reduceIte, hl]
+                rw [this, hcf]
+                exact mkSpec hw' (fun x => by rw [pendingOf]; exact hp' x) hnd hmem
+                  (Or.inr ⟨hne', rfl, by simp, Or.inl rfl⟩)
+
+/-! ## the reference checker, clause by clause -/
+
+theorem stepOk_ok {ev : Option Ev} {r r' : R} {o : Obs}
+    (h1 : ∀ c ∈ o.changes, held r c.fam = true → c.fam ∈ releasedNow r r')
+    (h2 : ∀ f ∈ r.deferred, held r f = true → f ∉ releasedNow r r' →
+            f ∈ o.flags ∧ mentions o.outs f = false)
+    (h3 : ∀ f ∈ releasedNow r r', f ∉ o.flags)
+    (h4 : ∀ f ∈ releasedNow r r', exactRelease r'.rib f o.changes = true)
+    (h5 : ∀ f ∈ r.deferred, f ∈ r.released → mentions o.outs f = false ∧
+            ((ev.map isRd).getD true = true → ∀ c ∈ o.changes, c.fam ≠ f))
+    (h6 : ∀ e ∈ o.pending, tracked r' e.1 = true ∧ e.2 ≠ [])
+    (h7 : (o.tag = .awaiting ∨ o.tag = .deferring) → o.pending ≠ [])
+    (h8 : r'.waiting = [] → o.tag ≠ .awaiting ∧ o.tag ≠ .deferring ∧ o.installed = false) :
+    stepOk ev r r' o = .ok () := by
+  unfold stepOk
+  have c1 : (o.changes.any fun c => held r c.fam && !(releasedNow r r').contains c.fam) = false := by
+    rw [List.any_eq_false]
+    intro c hc
+    cases hh : held r c.fam with
+    | false => simp
+    | true => simp [h1 c hc hh]
+  have c2 : (r.deferred.any fun f => held r f && !(releasedNow r r').contains f &&
+      (!o.flags.contains f || mentions o.outs f)) = false := by
+    rw [List.any_eq_false]
+    intro f hf
+    cases hh : held r f with
+    | false => simp
+    | true =>
+        by_cases hr : f ∈ releasedNow r r'
+        · simp [hr]
+        · obtain ⟨a, b⟩ := h2 f hf hh hr
+          simp [hr, a, b]
+  have c3 : ((releasedNow r r').any fun f => o.flags.contains f) = false := by
+    rw [List.any_eq_false]; intro f hf; simpa using h3 f hf
+  have c4 : ((releasedNow r r').any fun f => !exactRelease r'.rib f o.changes) = false := by
+    rw [List.any_eq_false]; intro f hf; simp [h4 f hf]
+  have c5 : (r.deferred.any fun f => r.released.contains f &&
+      (mentions o.outs f || ((ev.map isRd).getD true && o.changes.any (·.fam = f)))) = false := by
+    rw [List.any_eq_false]
+    intro f hf
+    by_cases hr : f ∈ r.released
+    · obtain ⟨a, b⟩ := h5 f hf hr
+      cases hg : (ev.map isRd).getD true with
+      | false => simp [a]
+      | true =>
+          have := b hg
+          simp only [List.contains_iff_mem, hr, a, Bool.false_or, Bool.true_and, Bool.and_eq_true, not_and,
+            Bool.not_eq_true, List.any_eq_false, decide_eq_true_eq]
+          intro _ c hc; exact this c hc
+    · simp [hr]
+  have c6 : (o.pending.any fun e => !tracked r' e.1 || e.2.isEmpty) = false := by
+    rw [List.any_eq_false]
+    intro e he
+    obtain ⟨a, b⟩ := h6 e he
+    simp [a, b]
+  simp only [c1, c2, c3, c4, c5, c6, Bool.false_eq_true, ↓reduceIte]
+  by_cases ht : o.tag = .awaiting ∨ o.tag = .deferring
+  · have hp := h7 ht
+    have hw : r'.waiting ≠ [] := fun h => by
+      obtain ⟨a, b, _⟩ := h8 h
+      rcases ht with ht | ht
+      · exact a ht
+      · exact b ht
+    rcases ht with ht | ht <;> simp [ht, hp, hw]
+  · have ht1 : o.tag ≠ .awaiting := fun h => ht (Or.inl h)
+    have ht2 : o.tag ≠ .deferring := fun h => ht (Or.inr h)
+    by_cases hw : r'.waiting = []
+    · obtain ⟨_, _, c⟩ := h8 hw
+      simp [ht1, ht2, hw, c]
+    · simp [ht1, ht2, hw]
+
+/-! ## the RIB part -/
+
+@[simp] theorem set_same (t : Tabs) (f : Fam) (r : Rib) : (t.set f r) f = r := by simp [Tabs.set]
+theorem set_other (t : Tabs) {f g : Fam} (r : Rib) (h : g ≠ f) : (t.set f r) g = t g := by simp [Tabs.set, h]
+
+/-- the announcement `end_deferral(f)` makes for a RIB -/
+def announce (f : Fam) (paths : List (Nat × Peer)) : List Change :=
+  (prefixes paths).map fun n => { fam := f, pfx := n, peers := peersOf n paths }
+
+theorem endDeferralFamilies_spec (fs : List Fam) (t : Tabs) :
+    (∀ g, ((endDeferralFamilies fs t).1 g).paths = (t g).paths) ∧
+    (∀ g, ((endDeferralFamilies fs t).1 g).deferring = (if g ∈ fs then false else (t g).deferring)) ∧
+    (endDeferralFamilies fs t).2 = fs.flatMap fun f => announce f (t f).paths := by
+  induction fs generalizing t with
+  | nil => simp [endDeferralFamilies]
+  | cons f fs ih =>
+      obtain ⟨i1, i2, i3⟩ := ih (endDeferral t f).1
+      have hp : ∀ g, ((endDeferral t f).1 g).paths = (t g).paths := by
+        intro g; by_cases h : g = f
+        · subst h; simp [endDeferral]
+        · simp [endDeferral, set_other _ _ h]
+      refine ⟨fun g => by simp only [endDeferralFamilies]; rw [i1, hp], fun g => ?_, ?_⟩
+      · simp only [endDeferralFamilies]; rw [i2]
+        by_cases hg : g ∈ fs
+        · simp [hg]
+        · by_cases h : g = f
+          · subst h; simp [hg, endDeferral]
+          · simp [hg, h, endDeferral, set_other _ _ h]
+      · simp only [endDeferralFamilies, i3, List.flatMap_cons, hp]
+        rfl
+
+theorem endDeferralFamilies_append (a b : List Fam) (t : Tabs) :
+    endDeferralFamilies (a ++ b) t =
+      ((endDeferralFamilies b (endDeferralFamilies a t).1).1,
+       (endDeferralFamilies a t).2 ++ (endDeferralFamilies b (endDeferralFamilies a t).1).2) := by
+  induction a generalizing t with
+  | nil => simp [endDeferralFamilies]
+  | cons f a ih => simp [endDeferralFamilies, ih]
+
+/-- `process_restarting_outputs` releases exactly `relFams outs`, in that order -/
+theorem applyOuts_spec (s : St) (outs : List ROut) :
+    (applyOuts s outs).1.tabs = (endDeferralFamilies (relFams outs) s.tabs).1 ∧
+    (applyOuts s outs).2 = (endDeferralFamilies (relFams outs) s.tabs).2 ∧
+    (applyOuts s outs).1.sd = (if (endRemaining outs).isSome then none else s.sd) ∧
+    (applyOuts s outs).1.univ = s.univ := by
+  unfold applyOuts relFams
+  cases h : endRemaining outs with
+  | none => simp [endDeferralFamilies]
+  | some fs => simp [endDeferralFamilies_append]
+
+theorem mem_peersOf {n : Nat} {p : Peer} {paths : List (Nat × Peer)} :
+    p ∈ peersOf n paths ↔ (n, p) ∈ paths := by
+  simp only [peersOf, List.mem_map, List.mem_filter, decide_eq_true_eq]
+  constructor
+  · rintro ⟨e, ⟨he, rfl⟩, rfl⟩; exact he
+  · intro h; exact ⟨(n, p), ⟨h, rfl⟩, rfl⟩
+
+theorem mem_prefixes {n : Nat} {paths : List (Nat × Peer)} :
+    n ∈ prefixes paths ↔ ∃ p, (n, p) ∈ paths := by
+  simp only [prefixes, mem_dedup, List.mem_map]
+  constructor
+  · rintro ⟨e, he, rfl⟩; exact ⟨e.2, he⟩
+  · rintro ⟨p, hp⟩; exact ⟨(n, p), hp, rfl⟩
+
+/-- `end_deferral` announces every prefix that has a path exactly once, with the paths present -/
+theorem exactRelease_announce {rib : List (Fam × Nat × Peer)} {f : Fam} {paths : List (Nat × Peer)}
+    (hr : ∀ n p, (n, p) ∈ paths ↔ (f, n, p) ∈ rib) {changes : List Change}
+    (hc : changes.filter (·.fam = f) = announce f paths) :
+    exactRelease rib f changes = true := by
+  unfold exactRelease
+  simp only [hc, Bool.and_eq_true, List.all_eq_true, Bool.not_eq_eq_eq_not, Bool.not_true]
+  refine ⟨⟨?_, ?_⟩, ?_⟩
+  · rw [distinct_iff]
+    have : (announce f paths).map (·.pfx) = prefixes paths := by
+      simp [announce, List.map_map, Function.comp_def]
+    rw [this]; exact nodup_dedup _
+  · intro c hc'
+    simp only [announce, List.mem_map] at hc'
+    obtain ⟨n, hn, rfl⟩ := hc'
+    obtain ⟨p0, hp0⟩ := mem_prefixes.mp hn
+    refine ⟨?_, ?_⟩
+    · simp only [sameSet, Bool.and_eq_true, List.all_eq_true, List.contains_iff_mem, List.mem_map,
+        List.mem_filter, decide_eq_true_eq]
+      constructor
+      · intro p hp
+        exact ⟨(f, n, p), ⟨⟨(hr n p).mp (mem_peersOf.mp hp), rfl⟩, rfl⟩, rfl⟩
+      · rintro p ⟨e, ⟨⟨he, h1⟩, h2⟩, rfl⟩
+        obtain ⟨f', n', p'⟩ := e
+        simp only at h1 h2; subst h1 h2
+        exact mem_peersOf.mpr ((hr _ _).mpr he)
+    · cases hpe : peersOf n paths with
+      | nil =>
+          have := mem_peersOf.mpr hp0
+          rw [hpe] at this; simp at this
+      | cons a l => rfl
+  · intro e he
+    simp only [List.mem_filter, decide_eq_true_eq] at he
+    obtain ⟨f', n, p⟩ := e
+    obtain ⟨he, rfl⟩ := he
+    simp only [List.any_eq_true, decide_eq_true_eq, announce, List.mem_map]
+    exact ⟨_, ⟨n, mem_prefixes.mpr ⟨p, (hr n p).mpr he⟩, rfl⟩, rfl⟩
+
+/-! ## tag bookkeeping: when does the machine leave `AwaitingStart` -/
+
+def isDeferring : RInner → Bool
+  | .deferring _ => true
+  | _ => false
+
+theorem process_tag (m : RInner) (i : RIn) (hw : WFp (pendingOf m)) (hm : (process m i).1 ≠ .completed) :
+    isDeferring (process m i).1 = true ↔
+      (isDeferring m = true ∨ ∃ p fams, i = .est p fams ∧ ∃ f, (p, f) ∈ pairs (pendingOf (process m i).1)) := by
+  cases m with
+  | completed =>
+      have : process .completed i = (.completed, []) := by cases i <;> rfl
+      rw [this] at hm; exact absurd rfl hm
+  | deferring pend =>
+      simp only [isDeferring, true_or, iff_true]
+      cases i with
+      | timer => exact absurd rfl hm
+      | eor p f =>
+          have : process (.deferring pend) (.eor p f) =
+              (if (eorStep pend p f).1.isEmpty then (.completed, (eorStep pend p f).2 ++ [.endDeferral []])
+               else (.deferring (eorStep pend p f).1, (eorStep pend p f).2)) := rfl
+          rw [this] at hm ⊢
+          by_cases he : (eorStep pend p f).1.isEmpty = true
+          · rw [if_pos he] at hm; exact absurd rfl hm
+          · rw [if_neg he]
+      | wd p =>
+          have : process (.deferring pend) (.wd p) =
+              finishDeferring (removePeer pend p).1 (removePeer pend p).2 := rfl
+          rw [this] at hm ⊢
+          unfold finishDeferring at hm ⊢
+          by_cases he : (removePeer pend p).1.isEmpty = true
+          · rw [if_pos he] at hm; exact absurd rfl hm
+          · rw [if_neg he]
+      | est p fams0 =>
+          by_cases he : (stillAwaited pend p fams0).isEmpty = true
+          · have : process (.deferring pend) (.est p fams0) =
+                finishDeferring (removePeer pend p).1 (removePeer pend p).2 := by
+              simp only [process, he, ↓reduceIte]
+            rw [this] at hm ⊢
+            unfold finishDeferring at hm ⊢
+            by_cases he2 : (removePeer pend p).1.isEmpty = true
+            · rw [if_pos he2] at hm; exact absurd rfl hm
+            · rw [if_neg he2]
+          · have he' : (stillAwaited pend p fams0).isEmpty = false := by simpa using he
+            cases hl : lookup p pend with
+            | none => simp only [process, he', Bool.false_eq_true, ↓reduceIte, hl]
+            | some old => simp only [process, he', Bool.false_eq_true, ↓reduceIte, hl]
+  | awaiting pend dur =>
+      simp only [pendingOf] at hw
+      simp only [isDeferring, Bool.false_eq_true, false_or]
+      cases i with
+      | timer => simp [process, isDeferring]
+      | eor p f => simp [process, isDeferring]
+      | wd p =>
+          have : process (.awaiting pend dur) (.wd p) =
+              finishAwaiting (removePeer pend p).1 dur (removePeer pend p).2 := rfl
+          rw [this]
+          unfold finishAwaiting
+          by_cases he : (removePeer pend p).1.isEmpty = true
+          · rw [if_pos he]; simp [isDeferring]
+          · rw [if_neg he]; simp [isDeferring]
+      | est p fams0 =>
+          by_cases he : (stillAwaited pend p fams0).isEmpty = true
+          · have hproc : process (.awaiting pend dur) (.est p fams0) =
+                finishAwaiting (removePeer pend p).1 dur (removePeer pend p).2 := by
+              simp only [process, he, ↓reduceIte]
+            rw [hproc]
+            obtain ⟨_, hp', _⟩ := removePeer_spec hw p
+            unfold finishAwaiting
+            by_cases he2 : (removePeer pend p).1.isEmpty = true
+            · rw [if_pos he2]; simp [isDeferring, pendingOf, pairs]
+            · rw [if_neg he2]
+              simp only [isDeferring, Bool.false_eq_true, RIn.est.injEq, pendingOf, false_iff, not_exists, not_and]
+              rintro q fams ⟨rfl, rfl⟩ f hf
+              exact ((hp' _).mp hf).2 rfl
+          · have he' : (stillAwaited pend p fams0).isEmpty = false := by simpa using he
+            cases hl : lookup p pend with
+            | none =>
+                simp only [process, he', Bool.false_eq_true, ↓reduceIte, hl, isDeferring, RIn.est.injEq,
+                  pendingOf, false_iff, not_exists, not_and]
+                rintro q fams ⟨rfl, rfl⟩ f hf
+                exact not_mem_pairs_of_lookup_none hl f hf
+            | some old =>
+                obtain ⟨_, _, hp', _⟩ := est_known hw p fams0 old hl he'
+                simp only [process, he', Bool.false_eq_true, ↓reduceIte, hl, isDeferring, RIn.est.injEq,
+                  pendingOf, true_iff]
+                have hnw : toSet (stillAwaited pend p fams0) ≠ [] := by
+                  intro h
+                  have : stillAwaited pend p fams0 = [] := dedup_eq_nil.mp h
+                  simp [this] at he'
+                cases hs : toSet (stillAwaited pend p fams0) with
+                | nil => exact absurd hs hnw
+                | cons f rest =>
+                    refine ⟨p, fams0, ⟨rfl, rfl⟩, f, ?_⟩
+                    rw [mem_pairs]
+                    exact ⟨_, mem_replace.mpr (Or.inr ⟨rfl, old, mem_of_lookup_some hl⟩), by simp [hs]⟩
 
 end Rbgp.Gr.Restarting
